@@ -86,6 +86,12 @@ func cDecode(s string) ([]byte, bool) {
 	return out, true
 }
 
+// cTrigraphs applies ISO C translation phase 1 to source text.
+func cTrigraphs(s string) string {
+	r := strings.NewReplacer("??=", "#", "??(", "[", "??/", "\\", "??)", "]", "??'", "^", "??<", "{", "??!", "|", "??>", "}", "??-", "~")
+	return r.Replace(s)
+}
+
 func c03DataLiteral(c *Ctx, p *Prog, pk *packages.Package) {
 	const rule = "c-data-literal"
 	info := pk.TypesInfo
@@ -259,28 +265,31 @@ func c03DataLiteral(c *Ctx, p *Prog, pk *packages.Package) {
 	}
 	var bad []string
 	undecided := ""
+	// emit: what the switch writes for byte x in state st (the state is carried on)
+	emit := func(x int, st *cEmitState) bool {
+		for _, cc := range sw.Body.List {
+			cl := cc.(*ast.CaseClause)
+			take := cl.List == nil
+			for _, e := range cl.List {
+				b, ok := evalBool(e, x, st.prev)
+				if !ok {
+					undecided = "case condition " + types.ExprString(e)
+				}
+				take = take || b
+			}
+			if take {
+				if !exec(cl.Body, x, st) {
+					undecided = "statements of the arm for byte " + fmt.Sprint(x)
+				}
+				return true
+			}
+		}
+		return false
+	}
 	for _, prev := range []bool{false, true} {
 		for x := 0; x < 256; x++ {
 			st := &cEmitState{prev: prev}
-			matched := false
-			for _, cc := range sw.Body.List {
-				cl := cc.(*ast.CaseClause)
-				take := cl.List == nil
-				for _, e := range cl.List {
-					b, ok := evalBool(e, x, prev)
-					if !ok {
-						undecided = "case condition " + types.ExprString(e)
-					}
-					take = take || b
-				}
-				if take {
-					if !exec(cl.Body, x, st) {
-						undecided = "statements of the arm for byte " + fmt.Sprint(x)
-					}
-					matched = true
-					break
-				}
-			}
+			matched := emit(x, st)
 			if undecided != "" {
 				break
 			}
@@ -303,10 +312,33 @@ func c03DataLiteral(c *Ctx, p *Prog, pk *packages.Package) {
 			}
 		}
 	}
+	// three-byte contexts: a standard C compiler replaces the nine trigraphs `??x` before it reads the literal
+	var badTri []string
+	if undecided == "" {
+		for _, third := range []byte("=(/)'<!>-") {
+			for _, prev := range []bool{false, true} {
+				st := &cEmitState{prev: prev}
+				ok := emit('?', st) && emit('?', st) && emit(int(third), st)
+				if undecided != "" || !ok {
+					break
+				}
+				prefix, want := "a", []byte{'a', '?', '?', third}
+				if prev {
+					prefix, want = `\x00`, []byte{0, '?', '?', third}
+				}
+				got, okd := cDecode(cTrigraphs(prefix + st.out.String()))
+				if (!okd || string(got) != string(want)) && len(badTri) < 4 {
+					badTri = append(badTri, fmt.Sprintf("the bytes `??%c` are written as %q, which a standard C compiler (trigraph replacement, ISO C translation phase 1) reads as % x", third, st.out.String(), got))
+				}
+			}
+		}
+	}
 	if undecided != "" {
 		c.Undecided(rule, "buildMemory_data: per-byte switch", p.Pos(sw.Pos()), "the finite evaluator does not model the "+undecided)
 		return
 	}
+	c.Check(len(badTri) == 0, rule, "buildMemory_data: `??x` sequences survive trigraph replacement", p.Pos(sw.Pos()), "18 cases decode to the original bytes",
+		"the C string literal written for a data segment does not decode to the segment's bytes: "+strings.Join(badTri, "; ")+": under -std=c99/-std=c11 linear memory of the C build differs from the module's")
 	c.Check(len(bad) == 0, rule, "buildMemory_data: every byte value in both escape states", p.Pos(sw.Pos()), "512 cases decode to the original byte",
 		"the C string literal written for a data segment does not decode to the segment's bytes: "+strings.Join(bad, "; ")+": linear memory of the C build differs from the module's")
 }
